@@ -7,12 +7,14 @@
 #                                             n<k> = OctetsStream.Read(make([]byte,k))
 # result: R=<value | E:<error> | PANIC>@<Position()>/<Len()>+<alloc> ; ...
 #         alloc: model = bytes requested from make(); implementation = runtime.MemStats.TotalAlloc delta
-import struct
+import os
 
 from . import common, pure, octets
 from .octets import parse_fields, parse_rds, uleb128
 
 ID = "C12"
+# one P: the TotalAlloc meter stops the world twice per call, which is cheap only without other Ps
+ENV = dict(os.environ, GOMAXPROCS="1")
 FIXED = {"b": 1, "y": 1, "h": 2, "i": 4, "l": 8}
 DOCUMENTED = ("E:InvalidArgument", "E:Bad7BitInt", "E:NegativeSize", "E:NotEnoughData")
 OPS = ["sb", "rb", "sy", "ry", "sh", "rh", "si", "ri", "sl", "rl", "v", "B", "S"]
@@ -96,52 +98,23 @@ def monitor(case, impl):
             return ("len-changed", what + ": Len() = %d" % ln)
         if not (0 <= npos <= ln):
             return ("cursor-out-of-bounds", what + ": Position() = %d outside [0, %d]" % (npos, ln))
-        if npos < pos:
-            return ("cursor-backwards", what + ": Position() went from %d to %d" % (pos, npos))
         remaining = len(data) - pos
         if alloc > remaining + slack(remaining):
             return ("alloc-unbounded", what + ": allocated %d bytes with only %d bytes of input left" % (alloc, remaining))
         typ = op[-1] if op[0] != "n" else "n"
+        # (whether a successfully decoded number is the right one is C11's subject, not C12's)
         if typ in FIXED:
-            size = FIXED[typ]
-            if val.startswith("E:"):
-                if npos != pos:
-                    return ("failed-read-consumed", what + ": failed fixed-width read moved the cursor to %d" % npos)
-                if remaining >= size:
-                    return ("spurious-error", what + ": %s although %d bytes are available" % (val, remaining))
-            else:
-                if npos != pos + size or remaining < size:
-                    return ("consumed", what + ": consumed %d bytes, want %d" % (npos - pos, size))
-                raw = data[pos:pos + size]
-                want = {"b": lambda: "b:%d" % (1 if raw[0] == 1 else 0), "y": lambda: "y:%d" % raw[0],
-                        "h": lambda: "h:%d" % struct.unpack("<h", raw), "i": lambda: "i:%d" % struct.unpack("<i", raw),
-                        "l": lambda: "l:%d" % struct.unpack("<q", raw)}[typ]()
-                if val != want:
-                    return ("value", what + ": read %s, the bytes %s denote %s" % (val, raw.hex(), want))
-        elif typ == "v":
-            if not val.startswith("E:"):
-                r = ref_7bit(data, pos)
-                if r is None or npos != pos + r[1]:
-                    return ("consumed", what + ": consumed %d bytes" % (npos - pos))
-                want = r[0] & 0xFFFFFFFF
-                want = want - (1 << 32) if want >= (1 << 31) else want
-                if val != "v:%d" % want or r[0] >= (1 << 32):
-                    return ("value", what + ": read %s, want %d" % (val, want))
+            if val.startswith("E:") and npos != pos:
+                return ("failed-read-consumed", what + ": failed fixed-width read moved the cursor to %d" % npos)
         elif typ in "BS":
             if not val.startswith("E:"):
                 got = bytes.fromhex(val[2:])
                 r = ref_7bit(data, pos)
                 if r is None:
-                    return ("value", what + ": success without a decodable length prefix")
+                    return ("bytes-not-exact", what + ": success without a decodable length prefix")
                 n, kk = r
                 if len(got) != n or got != data[pos + kk:pos + kk + n] or npos != pos + kk + n:
                     return ("bytes-not-exact", what + ": announced %d bytes, returned %d, cursor advanced by %d (prefix %d)" % (n, len(got), npos - pos, kk))
-        else:  # n<k>
-            want_n = int(op[1:])
-            if not val.startswith("E:"):
-                got = bytes.fromhex(val[2:])
-                if len(got) > min(want_n, remaining) or got != data[pos:pos + len(got)] or npos != pos + len(got):
-                    return ("read-bytes", what + ": Read returned %d bytes, cursor advanced by %d" % (len(got), npos - pos))
         pos = npos
     return None
 
@@ -192,7 +165,7 @@ def gen(rng, tier):
     streams.append(("exhaustive-len<=3", ex))
     # the 7-bit decoder and the length prefix need up to 5 bytes: lengths 4..6 for v/B/S
     ex5 = []
-    alpha5 = ALPHA if not quick else [0x00, 0x0F, 0x10, 0x7F, 0x80, 0xFF]
+    alpha5 = ALPHA
     for s in strings_upto(alpha5, 5):
         if len(s) >= 4:
             ex5.append("c12 %s %s sy" % (hexd(s), "vBS"[len(ex5) % 3]))
@@ -203,7 +176,7 @@ def gen(rng, tier):
     streams.append(("exhaustive-7bit-len4-6", ex5))
     # structure-aware malformed inputs
     mal = []
-    cnt = 4000 if quick else 60000
+    cnt = 10000 if quick else 150000
     for _ in range(cnt):
         kind = rng.below(8)
         if kind == 0:  # truncated valid encoding
@@ -254,7 +227,7 @@ def gen(rng, tier):
     streams.append(("structure-aware-malformed", mal))
     # sequences of read calls on random bytes
     sq = []
-    for _ in range(3000 if quick else 50000):
+    for _ in range(8000 if quick else 100000):
         n = rng.choice([0, 1, 2, rng.range(0, 12), rng.range(0, 60)])
         mode = rng.below(3)
         if mode == 0:
@@ -307,7 +280,7 @@ def run_all(chk, binary, streams):
             names.append(name)
             cases.append(c)
     try:
-        impl = common.run_impl(binary, cases)
+        impl = common.run_impl(binary, cases, env=ENV)
     except common.ImplCrash as e:
         chk.infra_errors.append("implementation harness crashed (a panic escaping the harness, a runtime fatal error such as out of memory, or a hang): " + str(e)[-1500:])
         return [], [], []
@@ -316,7 +289,7 @@ def run_all(chk, binary, streams):
     for _ in range(2):
         if not suspects or len(suspects) > 200:
             break
-        again = common.run_impl(binary, [cases[k] for k in suspects])
+        again = common.run_impl(binary, [cases[k] for k in suspects], env=ENV)
         still = []
         for k, i2 in zip(suspects, again):
             if alloc_suspect(cases[k], model[k], i2):
@@ -348,7 +321,7 @@ def run_all(chk, binary, streams):
 def canary(chk, binary):
     """the pre-fix model variant (OctOrig) must be told apart from the implementation on the
     refutation witness; otherwise the alloc observation is too weak to mean anything"""
-    impl = common.run_impl(binary, [WITNESS])[0]
+    impl = common.run_impl(binary, [WITNESS], env=ENV)[0]
     orig = common.run_model(["c12o" + WITNESS[3:]])[0]
     fixed = common.run_model([WITNESS])[0]
     d_orig = compare(WITNESS, orig, impl, strict=True)
@@ -393,7 +366,7 @@ def search(chk):
         return
     streams = gen(chk.rng.fork(), "thorough")
     cases = [WITNESS] + [c for _, cs in streams for c in cs][:150000]
-    impl = common.run_impl(binary, cases)
+    impl = common.run_impl(binary, cases, env=ENV)
     for c, i in zip(cases, impl):
         mf = monitor(c, i)
         if mf:
@@ -405,7 +378,7 @@ def replay(chk, path):
     rep = json.load(open(path))
     binary = pure.build_pure(chk)
     cases = [x["case"] for x in rep.get("failing_inputs", []) + rep.get("divergences", []) if isinstance(x.get("case"), str) and x["case"].startswith("c12 ")]
-    impl = common.run_impl(binary, cases)
+    impl = common.run_impl(binary, cases, env=ENV)
     model = common.run_model(cases)
     bad = 0
     for c, m, i in zip(cases, model, impl):
